@@ -19,6 +19,9 @@ fn main() {
     let n_adv: u64 = arg(&args, "--adversarial").and_then(|s| s.parse().ok()).unwrap_or(0);
     let n_faithful: u64 = arg(&args, "--faithful").and_then(|s| s.parse().ok()).unwrap_or(0);
     let n_cycles: u64 = arg(&args, "--cycles").and_then(|s| s.parse().ok()).unwrap_or(0);
+    let n_limits: u64 = arg(&args, "--limits").and_then(|s| s.parse().ok()).unwrap_or(0);
+    let n_interrupted: u64 = arg(&args, "--interrupted").and_then(|s| s.parse().ok()).unwrap_or(0);
+    let n_wrapnear: u64 = arg(&args, "--wrapnear").and_then(|s| s.parse().ok()).unwrap_or(0);
     let n_races: u64 = arg(&args, "--races").and_then(|s| s.parse().ok()).unwrap_or(0);
     let n_wrap: u64 = arg(&args, "--wrap").and_then(|s| s.parse().ok()).unwrap_or(0);
     let len: usize = arg(&args, "--len").and_then(|s| s.parse().ok()).unwrap_or(60);
@@ -37,6 +40,9 @@ fn main() {
     for i in 0..n_adv { scripts.push(gen::scripted(seed.wrapping_mul(2_000_003).wrapping_add(i), len, true)); }
     for i in 0..n_faithful { scripts.push(gen::faithful(seed.wrapping_mul(3_000_017).wrapping_add(i), len)); }
     for i in 0..n_cycles { scripts.push(gen::cycles(seed.wrapping_mul(5_000_011).wrapping_add(i), 2 + (i % 4) as usize)); }
+    for i in 0..n_interrupted { scripts.push(gen::interrupted(seed.wrapping_mul(13_000_027).wrapping_add(i))); }
+    for i in 0..n_wrapnear { scripts.push(gen::wrapnear(seed.wrapping_mul(17_000_023).wrapping_add(i))); }
+    for i in 0..n_limits { scripts.push(gen::limits(seed.wrapping_mul(11_000_003).wrapping_add(i))); }
     for i in 0..n_races { scripts.push(gen::races(seed.wrapping_mul(7_000_003).wrapping_add(i))); }
     for i in 0..n_wrap { scripts.push(gen::wraparound(seed.wrapping_add(i), 66000)); }
 
